@@ -104,6 +104,24 @@ Theorem C07_event_count_le : forall bs,
 Proof. exact event_count_le. Qed.
 Print Assumptions C07_event_count_le.
 
+(* ---- round 4: the two block tables ---------------------------------------------------------------- *)
+(* for EVERY history of set_block / add_block (OpSet) and read (OpRead, file with distinct block numbers) on one
+   object: block_events and block_durations carry the same keys in the same order, and duration() (walks the
+   keys of block_events, looks the durations up) equals sum(block_durations.values()) (TotalDuration, the total
+   of calculate_kspace, the time_range tables) *)
+Theorem C07_history_totals_agree : forall ops, Forall op_ok ops ->
+  TlInv (tl_run ops) /\ tl_duration (tl_run ops) = Some (tl_sum (tl_run ops)).
+Proof. exact tl_history_totals_agree. Qed.
+Print Assumptions C07_history_totals_agree.
+
+(* ... which fails for a read() that merges the file into the old duration table: used object with blocks 1, 2,
+   file with block 1 only: duration() = 1 ms, sum(block_durations) = 3 ms *)
+Theorem C07_merging_read_disagrees :
+  exists st file, TlInv st /\ NoDup (map fst file) /\
+    tl_duration (tl_read_merging file st) = Some (1 # 1000) /\ tl_sum (tl_read_merging file st) == 3 # 1000.
+Proof. exact tl_merging_read_disagrees. Qed.
+Print Assumptions C07_merging_read_disagrees.
+
 (* non-vacuity: an own-system argument list; the stored value is the latest end *)
 Example C07_example :
   OwnArgs (1 # 100000) [AEv ex_trap; ADur (3 # 10000)] /\
